@@ -554,17 +554,27 @@ def run_case(case):
             else:
                 v = cvec(rng, D)
                 pn[b] = np.outer(v, v.conj())
+        dt = ['cc', 'cc', 'rc', 'cr'][(case['seed'] // 2) % 4]       # dtypes of (target, noise): complex / real
+        if dt[0] == 'r':
+            # real-dtype target PSD (real symmetric rank-one target), complex noise PSD
+            ar = rng.normal(size=(Fs, D))
+            px = sigma[:, None, None] * np.einsum('fd,fe->fde', ar, ar)
+            for b in bad:
+                if case['kind'] in ('zero', 'both'):
+                    px[b] = 0
+        if dt[1] == 'r':
+            pn = np.ascontiguousarray(pn.real) + 0.0
         call = (lambda P, N: bf.get_mvdr_vector_souden(P, N, ref_channel=0)) if case['fn'] == 'souden' else \
                (lambda P, N: bf.get_wmwf_vector(P, N, reference_channel=0))
         w, exc = _call(call, px, pn)
         recs = [dict(kind='finite', items=[] if w is None else [dict(w=Z(w[f])) for f in range(Fs)], exc=exc,
-                     fp=fp + f';{case["fn"]};{case["kind"]}', key=f'sing:{case["seed"]}')]
+                     fp=fp + f';{case["fn"]};{case["kind"]};dtypes={dt}', key=f'sing:{case["seed"]}')]
         good = [f for f in range(Fs) if f not in bad]
         if w is not None and good:
             alone = np.stack([call(px[f:f + 1], pn[f:f + 1])[0] for f in good])
             recs.append(dict(kind='pair', what='regular_bins_unaffected', exc='',
                              items=[dict(w1=Z(w[f]), w2=Z(alone[i])) for i, f in enumerate(good)][:8],
-                             fp=fp + f';{case["fn"]};neighbours', key=f'singn:{case["seed"]}'))
+                             fp=fp + f';{case["fn"]};neighbours;dtypes={dt}', key=f'singn:{case["seed"]}'))
         return recs
     if t == 'name':
         return [_name(case, rng)]
